@@ -1074,6 +1074,16 @@ def emit_type(t, log):
         text = "pub " + text.lstrip()
     for r in t.get("subst", []):
         text, _ = r_subst(text, [r], "type " + t["name"])
+    if t.get("discriminants"):
+        # R-discriminants: a field-less enum with explicit discriminants and `#[derive(ToPrimitive)]`: the discriminant table is read
+        # from the real text and emitted as a spec function; `to_u64()` (num_traits::ToPrimitive, derived) returns it
+        variants = re.findall(r"(?m)^\s*(\w+)\s*=\s*(\d+)\s*,?", text.split("{", 1)[1])
+        if not variants:
+            raise AnchorLost("R-discriminants: no `Name = n` variants in %s" % t["name"])
+        text = re.sub(r"(?m)^(\s*\w+)\s*=\s*\d+\s*(,?)", r"\1\2", text)
+        arms = " ".join("%s::%s => %s," % (t["name"], v, n) for v, n in variants)
+        text += ("\nimpl %s {\n    pub open spec fn disc(&self) -> u64 { match self { %s } }\n"
+                 "    #[verifier::external_body] pub fn to_u64(&self) -> (r: Option<u64>) ensures r == Some(self.disc()) { unimplemented!() }\n}\n") % (t["name"], arms)
     pre = t.get("attrs", "")
     log.append(dict(type=t["name"], source=t["source"], line=loc["line"],
                     sha=hashlib.sha256(loc["text"].encode()).hexdigest()[:16]))
